@@ -256,4 +256,10 @@ def run(chk):
     r04_2(chk)
     r04_4(chk)
     r04_5(chk)
+    # "queries return exactly the features that overlap / lie inside the window" also needs the database side:
+    # the predicate itself (R17.1) and the denormalised extremes it is evaluated on (R17.3)
+    from . import c17
+
+    c17.r17_1(chk)
+    c17.r17_3(chk)
     chk.assume("a slice of self._seq keeps the view's offset and start (SliceRecordABC.__getitem__)")
